@@ -11,6 +11,14 @@ def geom(kind):
     return (3, 72) if kind in ("Map", "Cache") else (5, 120)
 
 
+def shrink_keep(kind, live):
+    """Ballast entries to keep so that a 64-bucket table holding `live` scenario entries sits exactly one entry above its
+    shrink threshold (64*slots/128: 1 for Map, 2 for MapOf): the next delete that empties a bucket shrinks it - and the
+    preload's own bulk delete does not."""
+    slots, _ = geom(kind)
+    return max(0, (64 * slots) // 128 + 1 - live)
+
+
 def S(op, k="", v="", fn="", d=0, lo=0, hi=0):
     o = {"op": op}
     if k:
@@ -91,9 +99,12 @@ def map_families(kind, kt, vt, strat):
                     [[S(st, "k50", v())], [S(st, "k70", v()), S(ld, "k70")], [S("LoadOrCompute", "k71", v()), S(ld, "k71")]], ["k1", "k50", "k70", "k71"], strat))
     # F5 delete that empties a bucket -> shrink || insert
     keys = {"k1": (FOCUS, 1), "k2": (OTHER, 2), "k3": (FOCUS2, 3)}
-    pre = [S("BulkStore", lo=1, hi=thr + slots + 2), S(st, "k1", v()), S(st, "k2", v()), S("BulkDelete", lo=1, hi=thr + slots + 2)]
+    pre = [S("BulkStore", lo=1, hi=thr + thr // 2), S(st, "k1", v()), S(st, "k2", v()), S("BulkDelete", lo=1 + shrink_keep(kind, 2), hi=thr + thr // 2)]
     add("F5-shrink", keys, pre,
         [[S(de, "k1")], [S(st, "k3", v()), S(st, "k2", v())], [S(ld, "k2"), S(ld, "k3"), S(ld, "k1")]])
+    # F5b a shrink request computed on the 64-bucket table arrives after a Clear has installed the minimal one
+    add("F5b-shrink-vs-clear", keys, pre,
+        [[S(de, "k1"), S(st, "k1", v())], [S("Clear"), S(st, "k3", v())], [S(ld, "k2"), S("Size")]])
     # F6 Clear || Store || Load
     keys = {"k1": (FOCUS, 1), "k2": (FOCUS, 2), "k3": (OTHER, 3)}
     add("F6-clear", keys, [S(st, "k1", v()), S(st, "k3", v())],
@@ -132,7 +143,9 @@ def map_families(kind, kt, vt, strat):
     add("F13-range-grow", dict(full, k50=(FOCUS2, 50)), pre,
         [[S("Range", fn="all")], [S(st, "k50", v())], [S(de, "k1")]])
     full2 = {"k%d" % i: (FOCUS, i) for i in range(1, 2 * slots + 1)}
-    pre2 = [S("BulkStore", lo=1, hi=thr + 1)] + [S(st, k, v()) for k in sorted(full2, key=lambda x: int(x[1:]))]
+    # the overflowed chain is built first, then ballast up to exactly thr+1 entries: no insert of the preload can grow the table
+    # (each of them sees a count <= thr), the scenario's insert into the full chain does
+    pre2 = [S(st, k, v()) for k in sorted(full2, key=lambda x: int(x[1:]))] + [S("BulkStore", lo=1, hi=thr + 1 - 2 * slots)]
     add("F13b-range-grow-overflow-chain", dict(full2, k50=(FOCUS2, 50)), pre2,
         [[S("Range", fn="all")], [S(st, "k50", v())], [S(ld, "k%d" % (2 * slots))]], final=["k1", "k%d" % (2 * slots), "k50"])
     add("F12b-range-overflow-chain-writers", dict(full2, k50=(FOCUS, 50)), [S(st, k, v()) for k in sorted(full2, key=lambda x: int(x[1:]))],
@@ -156,6 +169,16 @@ def strategies(tier, seed):
                 {"kind": "pct", "depth": 3, "runs": 400, "seed": seed}]
     return [{"kind": "dfs", "bound": 3, "max": 45000, "rotate": True, "reduce": True}, {"kind": "dfs", "bound": 2, "max": 30000, "rotate": True},
             {"kind": "pct", "depth": 3, "runs": 20000, "seed": seed}, {"kind": "random", "runs": 5000, "seed": seed + 1}]
+
+
+def single_preemption(tier):
+    """Complete enumeration of the schedules with ONE preemption (before every store-type operation of every thread, all
+    rotations of the default thread order). The bounded DFS with two preemptions is truncated at `max` and only reaches the
+    tail of a long run (a resize of a 64-bucket table is several hundred steps); this one covers every single stall point."""
+    return {"kind": "dfs", "bound": 1, "max": 8000 if tier == "quick" else 60000, "rotate": True, "storeonly": True}
+
+
+LONG_RUN = ("F5", "F5b", "T3", "T5", "G15", "G15b")   # families on a 64-bucket table at its shrink threshold
 
 
 def cache_families(kind, kt, vt, strat):
@@ -230,9 +253,11 @@ def cache_families(kind, kt, vt, strat):
         [[S("Set", "k50", v(), d=50)], [S("Delete", "k1"), S("Get", "k1")], [S("GetAndDelete", "k2"), S("Get", "k1"), S("Delete", "k1")]], final=["k1", "k2", "k50"])
     # G15 a shrink of the table under the cache (deletes leave a bucket empty at <= cap/128 entries) || a slow get-or-create of another key
     skeys = {"k1": (FOCUS, 1), "k2": (OTHER, 2), "k3": (FOCUS2, 3), "k4": (11, 4)}
-    spre = [S("BulkStore", lo=1, hi=thr + slots + 2), S("Set", "k1", v(), d=50), S("Set", "k2", v(), d=50), S("BulkDelete", lo=1, hi=thr + slots + 2)]
+    spre = [S("BulkStore", lo=1, hi=thr + thr // 2), S("Set", "k1", v(), d=50), S("Set", "k2", v(), d=50), S("BulkDelete", lo=1 + shrink_keep(kind, 2), hi=thr + thr // 2)]
     add("G15-shrink-vs-getorcompute", skeys, spre,
         [[S("Delete", "k1")], [S("GetOrCompute", "k4", v(), d=50), S("Get", "k4")], [S("Set", "k3", v(), d=50), S("Get", "k2")]], final=["k1", "k2", "k3", "k4"])
+    add("G15b-shrink-vs-clear", skeys, spre,
+        [[S("Delete", "k1"), S("Set", "k1", v(), d=50)], [S("Clear"), S("Set", "k3", v(), d=50)], [S("Get", "k2"), S("Count")]], final=["k1", "k2", "k3"])
     # G10 default expiration changed while stores run
     add("G10-default-swap", two, [],
         [[S("SetDefaultExpiration", d=7)], [S("SetDefault", "k1", v()), S("GetWithExpiration", "k1")], [S("Set", "k2", v(), d=-1000000000), S("GetWithTTL", "k2"), S("DefaultExpiration")]])
@@ -284,9 +309,12 @@ def termination_families(kind, kt, vt, strat):
                     [[S("Delete", "k51"), S("Compute", "k52", v(), fn="del"), S("LoadAndDelete", "k51"), S("Store", "k1", v())], [S("Load", "k1"), S("Store", "k2", v())]], ["k1", "k2", "k51"], strat))
     # shrink abandoned / completed with waiters
     keys = {"k1": (FOCUS, 1), "k2": (OTHER, 2), "k3": (FOCUS2, 3)}
-    pre = [S("BulkStore", lo=1, hi=thr + slots + 2), S("Store", "k1", v()), S("Store", "k2", v()), S("BulkDelete", lo=1, hi=thr + slots + 2)]
+    pre = [S("BulkStore", lo=1, hi=thr + thr // 2), S("Store", "k1", v()), S("Store", "k2", v()), S("BulkDelete", lo=1 + shrink_keep(kind, 2), hi=thr + thr // 2)]
     fam.append(base("T3-shrink-waiters/%s[%s]" % (kind, kt), kind, kt, vt, pin_of(keys), pre,
                     [[S("Delete", "k1")], [S("Delete", "k2")], [S("Store", "k3", v()), S("Range", fn="all")]], ["k1", "k2", "k3"], strat))
+    # a stale shrink request after a Clear / after a competing shrink: everybody must still terminate
+    fam.append(base("T5-shrink-vs-clear/%s[%s]" % (kind, kt), kind, kt, vt, pin_of(keys), pre,
+                    [[S("Delete", "k1"), S("Store", "k1", v())], [S("Clear")], [S("Store", "k3", v())]], ["k1", "k2", "k3"], strat))
     return fam
 
 
@@ -336,7 +364,9 @@ def solo_families(kind, kt, vt):
         nil_readers = {"get-nil": [S("Get", "k62")]}
     # a delete that leaves its bucket empty on a table at its shrink threshold: the writer is stopped at every step of the shrink
     shrink_pin = pin_of({"k1": (FOCUS, 1), "k2": (OTHER, 2), "k60": (OTHER, 3), "k61": (OTHER, 4), "k3": (FOCUS2, 3)})
-    shrink_pre = [S("BulkStore", lo=1, hi=thr + slots + 2), S(st, "k1", v()), S(st, "k2", v()), S(st, "k60", v()), S("BulkDelete", lo=1, hi=thr + slots + 2)]
+    # (Map shrinks a 64-bucket table at <= 1 entry: only k1 and k2 are live there, and the readers of k60 are left out)
+    shrink_live = ["k1", "k2"] + (["k60"] if slots > 3 else [])
+    shrink_pre = [S("BulkStore", lo=1, hi=thr + thr // 2)] + [S(st, k, v()) for k in shrink_live] + [S("BulkDelete", lo=1 + shrink_keep(kind, len(shrink_live)), hi=thr + thr // 2)]
     writers["shrink"] = (shrink_pre, [S("Delete", "k1")])
     combos = [(wn, pre, w, readers) for wn, (pre, w) in writers.items()]
     # lookups of a present key whose value is the zero value / nil, behind a writer stalled in the same bucket
@@ -345,6 +375,8 @@ def solo_families(kind, kt, vt):
             combos.append((wn + "+nil", nil_pre, writers[wn][1], nil_readers))
     for (wn, pre, w, rs) in combos:
         for rn, r in rs.items():
+            if wn == "shrink" and r[0].get("k") == "k60" and "k60" not in shrink_live:
+                continue
             if wn == "clear" and rn in ("loadorstore-hit", "loadorcompute-hit"):
                 continue  # after Clear published, the key is absent and the call is a get-or-CREATE (a writer): outside C16
             sc = base("S-%s-vs-%s/%s[%s]" % (wn, rn, kind, kt), kind, kt, vt, shrink_pin if wn == "shrink" else pin, pre, [w, r], ["k1", "k2", "k3"], {"kind": "solo", "writer": 1, "reader": 2, "parkat": -1, "ownmax": 200})
@@ -369,16 +401,20 @@ def random_map_scenarios(kind, kt, vt, rng, n, runs, seed):
         if shape == "grow":
             fullk = {"k%d" % (90 + j): (FOCUS, 10 + j) for j in range(slots)}
             keys.update(fullk)
-            pre = [S("BulkStore", lo=1, hi=thr + 1)] + [S("Store", k, v()) for k in sorted(fullk)]
-        elif shape == "shrink":
-            pre = [S("BulkStore", lo=1, hi=thr + slots + 2)] + [S("BulkDelete", lo=1, hi=thr + slots + 2)]
         elif shape == "chain":
             fullk = {"k%d" % (90 + j): (FOCUS, 10 + j) for j in range(2 * slots)}
             keys.update(fullk)
             pre = [S("Store", k, v()) for k in sorted(fullk)]
-        for k in names:
-            if rng.random() < 0.5:
-                pre.append(S("Store", k, v()))
+        stores = [S("Store", k, v()) for k in names if rng.random() < 0.5]
+        if shape == "grow":
+            # full focus chain and the scenario's own entries first, then ballast up to exactly thr+1 entries: nothing in the
+            # preload can grow the table, any insert into a full chain during the run does
+            pre = [S("Store", k, v()) for k in sorted(fullk)] + stores + [S("BulkStore", lo=1, hi=thr + 1 - slots - len(stores))]
+        elif shape == "shrink":
+            # grown to 64 buckets, emptied down to one entry above the shrink threshold (counting the scenario's own entries)
+            pre = [S("BulkStore", lo=1, hi=thr + thr // 2)] + stores + [S("BulkDelete", lo=1 + shrink_keep(kind, len(stores)), hi=thr + thr // 2)]
+        else:
+            pre += stores
         threads = []
         for t in range(rng.choice([2, 3, 3, 4])):
             calls = []
